@@ -14,7 +14,7 @@ func init() {
 	register(&Property{
 		ID:      "C06",
 		NeedSSA: true,
-		Decided: "Structural necessary conditions: (param) Find, binarySearch and linearSearch learn about the index only through NumPages, MinValue, MaxValue, NullPage, IsAscending/IsDescending and touch values only through the comparison function they are given; (guard) binarySearch runs only on the true edge of index.IsAscending(); (nullpages) on the binary path the bounds of a page are used only after NullPage was consulted, because null pages report the null value, which sorts after every value and breaks monotonicity; (nullbounds) FileColumnIndex.MinValue/MaxValue read MinValues[j]/MaxValues[j] only on the non-null edge of NullPage(j); (final) a page index other than NumPages is returned by binarySearch only after the containment comparisons; (order) the order functions of signed decimal byte arrays never delegate to the unsigned byte-order helpers, and a boundary order is claimed only when the orders of minimums and maximums agree (shared with C05.order); (indexer) the per-page arrays the search reads are aligned with the pages (shared with C05.indexer).",
+		Decided: "Structural necessary conditions: (param) Find, binarySearch and linearSearch learn about the index only through NumPages, MinValue, MaxValue, NullPage, IsAscending/IsDescending and touch values only through the comparison function they are given; (guard) binarySearch runs only on the true edge of index.IsAscending(); (nullpages) on the binary path the bounds of a page are used only after NullPage was consulted, because null pages report the null value, which sorts after every value and breaks monotonicity; (nullbounds) FileColumnIndex.MinValue/MaxValue read MinValues[j]/MaxValues[j] only on the non-null edge of NullPage(j); (final) a page index other than NumPages is returned by binarySearch only after the containment comparisons; (order) the order functions of signed decimal byte arrays never delegate to the unsigned byte-order helpers, and a boundary order is claimed only when the orders of minimums and maximums agree (shared with C05.order); (indexer) the per-page arrays the search reads are aligned with the pages (shared with C05.indexer). (nullpages, cont.) the linear search consults NullPage before the bounds as well.",
 		NotDecided: "correctness of the bisection arithmetic itself for every order type (the algorithm touches values only through comparisons, so a finite enumeration of order types would decide it, but that means executing the function on abstract inputs, a different technique); truth of the bounds (C05).",
 		Assumptions: []string{"callees are resolved through go/types; the comparison function is the `cmp` parameter"},
 		Run:         runC06,
